@@ -97,6 +97,32 @@ RICH_EVENTS = [{"type": "E1"}, {"type": "E1", "p": 1}, {"type": "E1", "p": 2}, {
                {"type": "E3"}, {"type": "E3", "p": 1}]
 
 
+def _state_summary(st):
+    """What a restored state must share with the saved one, structurally: instances, heads, actions with what they hold,
+    variables (by value where the value is plain data, by kind otherwise)."""
+    def val(v, depth=0):
+        if v is None or isinstance(v, (bool, int, float, str)):
+            return repr(v)
+        if isinstance(v, (list, tuple)) and depth < 3:
+            return [type(v).__name__] + [val(x, depth + 1) for x in v]
+        if isinstance(v, (set, frozenset)) and depth < 3:
+            return ["set"] + sorted(repr(val(x, depth + 1)) for x in v)
+        if isinstance(v, dict) and depth < 3:
+            return ["dict"] + sorted((repr(k), repr(val(x, depth + 1))) for k, x in v.items())
+        uid = getattr(v, "uid", None)
+        return "<%s %s>" % (type(v).__name__, uid if isinstance(uid, str) else "")
+    out = {}
+    for uid, f in st.flow_states.items():
+        out["flow:" + uid] = [f.flow_id, f.status.name, f.activated, f.parent_uid, list(f.child_flow_uids), list(f.action_uids),
+                              [(h.position, h.status.name) for h in f.heads.values()],
+                              sorted((k, repr(val(v))) for k, v in f.context.items() if not k.startswith("_global_"))]
+    for uid, a in st.actions.items():
+        out["action:" + uid] = [a.uid, a.name, a.status.name, a.flow_scope_count, a.flow_uid, repr(val(a.start_event_arguments)), repr(val(a.context))]
+    out["context"] = sorted((k, repr(val(v))) for k, v in st.context.items())
+    out["index"] = sorted((k, sorted(map(tuple, v))) for k, v in st.event_matching_heads.items())
+    return out
+
+
 def canon(events, mapping):
     out = []
     for e in events:
@@ -157,6 +183,11 @@ def _worker(job):
                 try:
                     if mode == "json":
                         s2 = json_to_state(state_to_json(start_state))
+                        a, b = _state_summary(start_state), _state_summary(s2)
+                        if a != b:
+                            diff = [k for k in a if a[k] != b.get(k)][:3]
+                            return None, "save/restore failed: restored state differs from the saved one in %s: %s vs %s" % (
+                                diff, [a[k] for k in diff][:2], [b.get(k) for k in diff][:2])
                     else:
                         s2 = copy.deepcopy(start_state)
                 except Exception as ex:
@@ -199,14 +230,25 @@ flow main
 """
 
 
+API_PROGRAM2 = """flow main
+  while True
+    match UtteranceUserAction().Finished() as $ev
+    start UtteranceBotAction(script="got {$ev.final_transcript}")
+"""
+
+
 def llmrails_cases():
+    return _llmrails_cases(API_PROGRAM, "api:counter", 4) + _llmrails_cases(API_PROGRAM2, "api:actions", 6)
+
+
+def _llmrails_cases(program, origin, nturns):
     """Save/restore as the public API does it: LLMRails.generate(messages, state=<state of an earlier reply>).  Every
     saved state is continued again later (retry / branching), on the same instance and on a new one: each continuation
     must answer exactly as the first continuation from that state did."""
     from nemoguardrails import LLMRails, RailsConfig
     from harness import doubles
     doubles.register_embed()
-    cfg = RailsConfig.from_content(colang_content=API_PROGRAM, yaml_content=doubles.MODELS_YAML + "colang_version: 2.x\n")
+    cfg = RailsConfig.from_content(colang_content=program, yaml_content=doubles.MODELS_YAML + "colang_version: 2.x\n")
 
     def new_app():
         return LLMRails(cfg, llm=doubles.ScriptedLLM(responder=lambda t, p_, l: "x", calls=[]))
@@ -218,21 +260,29 @@ def llmrails_cases():
     out = []
     app = new_app()
     states, replies = [{}], []
-    for t in range(4):
-        r, st = turn(app, states[-1], "u%d" % t)
+    for t in range(nturns):
+        try:
+            r, st = turn(app, states[-1], "u%d" % t)
+        except Exception as ex:
+            # the conversation itself cannot be continued from the state of its previous reply
+            out.append({"kind": "json", "origin": origin, "ref": [["(a reply)"]], "got": [], "ref_err": None,
+                        "err": "continuation raised %s: %s" % (type(ex).__name__, str(ex)[:200]), "k": t,
+                        "events": ["generate(state=state after turn %d)" % t], "hist": []})
+            nturns = t
+            break
         replies.append(r)
         states.append(st)
-    for k in range(0, 4):               # continue again from the state saved after turn k
+    for k in range(0, nturns):               # continue again from the state saved after turn k
         for where, a in (("same instance", app), ("new instance", new_app())):
             got, err = [], None
             st = states[k]
             try:
-                for t in range(k, 4):
+                for t in range(k, nturns):
                     r, st = turn(a, st, "u%d" % t)
                     got.append([r])
             except Exception as ex:
                 err = "continuation raised %s: %s" % (type(ex).__name__, ex)
-            out.append({"kind": "json", "origin": "api:counter", "ref": [[x] for x in replies[k:]], "got": got, "ref_err": None, "err": err,
+            out.append({"kind": "json", "origin": origin, "ref": [[x] for x in replies[k:]], "got": got, "ref_err": None, "err": err,
                         "k": k, "events": ["generate(state=state after turn %d) again on the %s" % (k, where)], "hist": []})
     return out
 
@@ -278,6 +328,7 @@ def run(ctx):
                       "k": sum(1 for h in ap["hist"] if h[0] == 0), "events": ["%d/%d/%d" % tuple(h) for h in ap["hist"]], "hist": ap["hist"]})
     api_cases = llmrails_cases()
     srcs["api:counter"] = API_PROGRAM
+    srcs["api:actions"] = API_PROGRAM2
     cases += api_cases
     ctx.log("%d programs, %d (history, cut point, mode) continuations (%d through LLMRails.generate(state=...))" % (len(progs), len(cases), len(api_cases)))
     # judge with TLC
